@@ -27,11 +27,11 @@ static std::string make_doc(int64_t vseed, int64_t sseed, int profile) {
     return t;
 }
 static std::string make_soup(int64_t seed) {
-    static const char *tok[] = {"[", "]", "{", "}", ",", ":", "\"a\"", "\"\"", "1", "-1.5e3", "true", "false", "null", " ", "\n", "\"\\u00e9\"", "\"\\ud83d\\ude00\"", "0", "-", "\"k\":", "[]", "{}", "1e", ".", "\\", "\"", "tru", "nul", "\xEF\xBB\xBF", "/*c*/"};
+    static const char *tok[] = {"[", "]", "{", "}", ",", ":", "\"a\"", "\"\"", "1", "-1.5e3", "true", "false", "null", " ", "\n", "\"\\u00e9\"", "\"\\ud83d\\ude00\"", "0", "-", "\"k\":", "[]", "{}", "1e", ".", "\\", "\"", "tru", "nul", "\xEF\xBB\xBF", "/*c*/", "0x10", "-inf", "-nan", "-Infinity", "0x1p4", "-0x1p-1", "-NAN(7)", "1e5f"};
     Rng r((uint64_t)seed);
     int n = 1 + (int)r.below(r.chance(1, 4) ? 8 : 4);
     std::string s;
-    for (int i = 0; i < n; i++) s += tok[r.below(r.chance(3, 4) ? 16 : 30)];
+    for (int i = 0; i < n; i++) s += tok[r.below(r.chance(3, 4) ? 16 : 38)];
     return s;
 }
 static std::string make_raw(int64_t seed) {
@@ -143,12 +143,22 @@ static bool apply_fault(std::string &b, int kind, uint64_t x, uint64_t y, uint64
             }
             if (runs.empty()) return false;
             auto d = runs[x % runs.size()];
-            switch (y % 5) {
+            switch (y % 7) {
                 case 0: b.erase(d.first, d.second); break;            // number without (these) digits
                 case 1: b.insert(d.first, "0"); break;                // leading zero
                 case 2: b.insert(d.first + d.second, "."); break;     // bare trailing point
                 case 3: b.insert(d.first + d.second, "e"); break;     // dangling exponent
-                default: b.replace(d.first, d.second, "-"); break;
+                case 4: b.replace(d.first, d.second, "-"); break;
+                default: {
+                    // spellings only a C conversion function knows (hex, hex floats, infinities, NaNs, suffixes): not JSON, and not
+                    // reachable through the characters the library's number scan admits - unless the conversion runs on the input itself
+                    static const char *alien[] = {"0x10", "0x1p4", "0X1P-2", "inf", "Infinity", "nan", "NAN(7)", "INF", "0x", "0x.8p1", "1e5f", "0b11", "1_0", "infinity", "NaN", "1.5L", "0x1.8", "1e+0x1"};
+                    std::string a = alien[(y / 7) % 18];
+                    bool neg = d.first > 0 && b[d.first - 1] == '-';
+                    if (!neg && ((y / 7 / 18) & 1)) a = "-" + a;
+                    b.replace(d.first, d.second, a);
+                    break;
+                }
             }
             return true;
         }
